@@ -59,16 +59,30 @@ def expr_nodes(e, X, acc):
     return acc
 
 
+FLAVOURS = [(False, False), (False, True), (True, True)]      # (is_term, is_reg)
+
+
 def _observe(case):
     from miasmx.expression import expression as X
     t = case.get('e')
+    # identifiers come in the flavours the library itself uses: plain variable, machine register (is_reg), initial-value
+    # symbol of a register (is_reg and is_term); equality looks at name, size and is_reg
+    flav = FLAVOURS[case['id'] % len(FLAVOURS)]
+
+    def mk(tree, term=None):
+        e = EJ.from_json(tree)
+        for n in expr_nodes(e, X, {}).values():
+            if isinstance(n, X.ExprId):
+                n.is_reg = flav[1]
+                n.is_term = flav[0] if term is None else term
+        return e
     produced = None
     if case.get('via') == 'simp':
         # the object under test is what the simplifier RETURNS for case['src'] (it may have been edited in place on the way);
         # e is its structure, and every law is checked between that object and independently built equal expressions
         from miasmx.expression.expression_helper import expr_simp
         try:
-            produced = expr_simp(EJ.from_json(case['src']))
+            produced = expr_simp(mk(case['src']))
             t = EJ.to_json(produced)
         except Exception as x:
             return {'id': case['id'], 'kind': 'skip', 'e': NONE, 'base': {}, 'src': case['src']}
@@ -78,18 +92,21 @@ def _observe(case):
                 return {'id': case['id'], 'kind': 'skip', 'e': NONE, 'base': {}, 'src': case['src']}
             key = subs[case['id'] % len(subs)]
             case = dict(case, map=[[key, {'k': 'id', 'w': key['w'], 'n': 'r1_%d' % key['w']}]])
-    rec = {'id': case['id'], 'kind': case['kind'], 'e': t}
+    rec = {'id': case['id'], 'kind': case['kind'], 'e': t, 'flavour': list(flav)}
     if produced is not None:
         rec['src'] = case['src']
     b = {'eqself': 0, 'eqfresh': 0, 'hashfresh': 0, 'copy': NONE, 'copyeq': 0, 'shared': 0, 'visit': NONE, 'visiteq': 0,
-         'canon': NONE, 'exc': ''}
+         'canon': NONE, 'exc': '', 'eqterm': 0, 'hashterm': 1}
     step = 'build'
     try:
-        e1, e2 = (produced if produced is not None else EJ.from_json(t)), EJ.from_json(t)
+        e1, e2 = (produced if produced is not None else mk(t)), mk(t)
         step = 'eq'
         b['eqself'], b['eqfresh'] = int(bool(e1 == e1)), int(bool(e1 == e2) and not bool(e1 != e2))
         step = 'hash'
         b['hashfresh'] = int(hash(e1) == hash(e2))
+        step = 'term'
+        e3 = mk(t, term=not flav[0])          # the same expression with the other is_term flag on every identifier
+        b['eqterm'], b['hashterm'] = int(bool(e1 == e3)), int(hash(e1) == hash(e3))
         step = 'copy'
         c = e1.copy()
         b['copy'], b['copyeq'] = EJ.to_json(c), int(bool(c == e1))
@@ -101,7 +118,7 @@ def _observe(case):
         if t['k'] != 'aff':
             step = 'canonize'
             try:
-                b['canon'] = EJ.to_json(EJ.from_json(t).canonize())
+                b['canon'] = EJ.to_json(mk(t).canonize())
             except Exception as x:
                 b['canon'] = NONE
                 rec['canon_exc'] = irlib.exc_key(x)
@@ -112,7 +129,7 @@ def _observe(case):
     if case['kind'] == 'mut':
         m = {'f': case['f'], 'g': case['g'], 'ef': 0, 'fe': 0, 'fg': 0, 'eg': 0, 'hef': 0, 'hfg': 0}
         try:
-            e, f, g = EJ.from_json(t), EJ.from_json(case['f']), EJ.from_json(case['g'])
+            e, f, g = mk(t), mk(case['f']), mk(case['g'])
             m.update(ef=int(bool(e == f)), fe=int(bool(f == e)), fg=int(bool(f == g)), eg=int(bool(e == g)),
                      hef=int(hash(e) == hash(f)), hfg=int(hash(f) == hash(g)))
         except Exception as x:
@@ -123,10 +140,10 @@ def _observe(case):
         mp = case['map']
         res = NONE
         try:
-            e = produced if produced is not None else EJ.from_json(t)
+            e = produced if produced is not None else mk(t)
             d = {}
             for k, img in mp:
-                d[EJ.from_json(k)] = EJ.from_json(img)
+                d[mk(k)] = mk(img)
             res = EJ.to_json(e.replace_expr(d))
         except Exception as x:
             rec['map_exc'] = irlib.exc_key(x)
@@ -232,17 +249,19 @@ def negative_control(chk):
     e = {'k': 'op', 'w': 8, 'o': '-', 'u': 0, 'a': [x, y]}
     sw = {'k': 'op', 'w': 8, 'o': '-', 'u': 0, 'a': [y, x]}
     env = [{'id': {'x8': [5], 'y8': [3], 'r1_8': [0]}, 'seed': 1, 'over': []}]
-    good = {'eqself': 1, 'eqfresh': 1, 'hashfresh': 1, 'copy': e, 'copyeq': 1, 'shared': 0, 'visit': e, 'visiteq': 1, 'canon': e, 'exc': ''}
+    good = {'eqself': 1, 'eqfresh': 1, 'hashfresh': 1, 'copy': e, 'copyeq': 1, 'shared': 0, 'visit': e, 'visiteq': 1, 'canon': e, 'exc': '', 'eqterm': 1, 'hashterm': 1}
     r1 = {'k': 'id', 'w': 8, 'n': 'r1_8'}
     recs = [{'id': 0, 'kind': 'plain', 'e': e, 'envs': env, 'base': good},
             {'id': 1, 'kind': 'plain', 'e': e, 'envs': env, 'base': dict(good, shared=1)},
             {'id': 2, 'kind': 'plain', 'e': e, 'envs': env, 'base': dict(good, canon=sw)},
             {'id': 3, 'kind': 'mut', 'e': e, 'envs': env, 'base': good, 'mut': {'f': sw, 'g': sw, 'ef': 1, 'fe': 1, 'fg': 1, 'eg': 1, 'hef': 1, 'hfg': 1}},
             {'id': 4, 'kind': 'map', 'e': e, 'envs': env, 'base': good, 'map': {'map': [[x, r1]], 'res': e}},
-            {'id': 5, 'kind': 'map', 'e': e, 'envs': env, 'base': good, 'map': {'map': [[x, r1]], 'res': {'k': 'op', 'w': 8, 'o': '-', 'u': 0, 'a': [r1, y]}}}]
+            {'id': 5, 'kind': 'map', 'e': e, 'envs': env, 'base': good, 'map': {'map': [[x, r1]], 'res': {'k': 'op', 'w': 8, 'o': '-', 'u': 0, 'a': [r1, y]}}},
+            {'id': 6, 'kind': 'plain', 'e': e, 'envs': env, 'base': dict(good, hashterm=0)},      # equal to its is_term twin, other hash
+            {'id': 7, 'kind': 'plain', 'e': e, 'envs': env, 'base': dict(good, eqterm=0, hashterm=0)}]   # not equal: hashes may differ
     verdicts, st = core.judge('T_C15', recs, shards=1)
     got = sorted((v['id'], v['v'][0]['clause']) for v in verdicts)
-    want = [(1, 'C15.copy.shared'), (2, 'C15.canon.value'), (3, 'C15.eq.value'), (4, 'C15.replace.structure')]
+    want = [(1, 'C15.copy.shared'), (2, 'C15.canon.value'), (3, 'C15.eq.value'), (4, 'C15.replace.structure'), (6, 'C15.eq.hash')]
     chk.cov['negative_controls'].append({'name': 'shared copy node / value-changing canonize / unsound equality / no-op replace rejected', 'ok': got == want, 'got': got})
     if got != want:
         raise core.MachineryError('C15 negative control failed: %r' % (got,))
